@@ -37,6 +37,9 @@ type c19Inv struct {
 	X   any `json:"x"`
 }
 
+// c19Handlers: options for the queries of the case being observed (set by c19Observe)
+var c19Handlers bool
+
 var c19State struct {
 	mu     sync.Mutex
 	record bool
@@ -96,7 +99,11 @@ func c19Exec(doc map[string]any, sql string) (out engineOut) {
 			out = engineOut{Class: "panic", Err: fmt.Sprint(r)}
 		}
 	}()
-	q, err := genql.New(doc, sql)
+	var opts []genql.QueryOption
+	if c19Handlers {
+		opts = append(opts, genql.UnReportedErrors(func(error) {}), genql.CompletedCallback(func() {}))
+	}
+	q, err := genql.New(doc, sql, opts...)
 	if err != nil {
 		if q != nil {
 			return engineOut{Class: "partial", Err: "New returned a query together with an error: " + err.Error()}
@@ -108,7 +115,7 @@ func c19Exec(doc map[string]any, sql string) (out engineOut) {
 		if transient {
 			return engineOut{Class: "error", Err: err.Error()}
 		}
-		if q2, err2 := genql.New(doc, sql); err2 == nil && q2 != nil {
+		if q2, err2 := genql.New(doc, sql, opts...); err2 == nil && q2 != nil {
 			if rows2, err3 := q2.Exec(); err3 == nil {
 				return engineOut{Class: "partial", Err: "New failed (" + err.Error() + "), the same text prepared again succeeded", Rows: normaliseRows(rows2)}
 			}
@@ -238,6 +245,9 @@ type c19In struct {
 	Cap      int            `json:"cap"`  // at most this many k per variant
 	Expect   *bool          `json:"expect,omitempty"`
 	Multiset bool           `json:"multiset,omitempty"`
+	// Handlers: the query is created with an error handler (UnReportedErrors) and a completion callback installed;
+	// a synchronous failure must still fail New / Exec
+	Handlers bool `json:"handlers,omitempty"`
 }
 
 type propC19 struct{}
@@ -538,8 +548,15 @@ func c19Decorate(r *Rand, q *Stmt) {
 func c19Case(d c19Doc, q *Stmt, kind, pos string, cap int, expect *bool, multiset bool, nontrivial bool, extra ...string) Case {
 	in := c19In{Doc: d.doc, Q: q, SQL: q.SQL(), Kind: kind, Pos: pos, Cap: cap, Expect: expect, Multiset: multiset}
 	tags := append([]string{"kind:" + kind, "pos:" + pos}, extra...)
+	c19CaseCount++
+	if c19CaseCount%3 == 0 {
+		in.Handlers = true
+		tags = append(tags, "handlers-installed")
+	}
 	return Case{Input: in, Tags: tags, Nontrivial: nontrivial, Key: in.SQL + "|" + fmt.Sprint(d.doc)}
 }
+
+var c19CaseCount int
 
 func c19Boolp(b bool) *bool { return &b }
 
@@ -590,6 +607,21 @@ func (propC19) Generate(r *Rand, tier string) []Case {
 			path += "/" + w
 		}
 		out = append(out, c19Case(d, q, "fault", "deep", cap, nil, false, len(d.t.rows) >= 1, "core:"+core, fmt.Sprintf("depth:%d", depth+1)))
+	}
+	// 3b. a PARALLEL join over many left keys (more than 1024) whose ON fails for one key — near the start, in the
+	// middle, at the end: the failure surfaces wherever the key sits
+	for _, nkeys := range []int{300, 1500} {
+		rows := make([]any, nkeys)
+		for i := range rows {
+			rows[i] = map[string]any{"id": float64(i + 1)}
+		}
+		d := c19Doc{doc: map[string]any{"t": rows, "u": []any{map[string]any{"aid": float64(0), "lo": float64(0)}}}}
+		for _, st := range []string{"parallel", "auto"} {
+			from := &From{K: "join", JT: "inner", Strat: st, L: &From{K: "table", Path: []string{"t"}, Alias: "a"}, R: &From{K: "table", Path: []string{"u"}, Alias: "b"},
+				On: And(Cmp(">", Col("a", "id"), Col("b", "lo")), c19Call("wide", Num(2), c19Bool(true)))} // (a column argument of a call inside ON reads NULL in this engine: constant argument)
+			q := &Stmt{From: from, Items: []Item{{E: Col("a", "id"), Alias: "i"}}}
+			out = append(out, c19Case(d, q, "fault", "join-on-wide", 4, nil, true, true, fmt.Sprintf("left-keys:%d", nkeys)))
+		}
 	}
 	// 4. RAISE / RAISE_WHEN per row
 	for i := 0; i < nRaise; i++ {
@@ -832,6 +864,8 @@ func c19ObserveInChild(raw json.RawMessage, in c19In) Observed {
 }
 
 func c19Observe(in c19In) (Observed, error) {
+	c19Handlers = in.Handlers
+	defer func() { c19Handlers = false }()
 	sql := in.Q.SQL()
 	pristine := deepCopy(in.Doc).(map[string]any)
 	var tags []string
